@@ -478,4 +478,79 @@ theorem rkc_parse_timer (env : Env) (input : Str) (c : Col α)
   rw [(rk_final env input sF c hfin).2.2.1]
   exact hK
 
+/-! ### `parse_reference` -/
+
+theorem rkc_splitOnChar_ne (c : Char) (l : Str) : splitOnChar c l ≠ [] := by
+  cases l with
+  | nil => simp [splitOnChar]
+  | cons x xs =>
+    unfold splitOnChar
+    split
+    · simp
+    · split <;> simp
+
+theorem rkc_splitOnChar_sep (c : Char) (l : Str) : splitOnChar c (c :: l) = [] :: splitOnChar c l := by
+  conv => lhs; unfold splitOnChar
+  cases h : splitOnChar c l with
+  | nil => exact absurd h (rkc_splitOnChar_ne c l)
+  | cons p ps => simp
+
+theorem rkc_splitOnChar_other (c x : Char) (l : Str) (hx : x ≠ c) :
+    ∃ p ps, splitOnChar c l = p :: ps ∧ splitOnChar c (x :: l) = (x :: p) :: ps := by
+  cases h : splitOnChar c l with
+  | nil => exact absurd h (rkc_splitOnChar_ne c l)
+  | cons p ps =>
+    refine ⟨p, ps, rfl, ?_⟩
+    conv => lhs; unfold splitOnChar
+    rw [h]
+    simp [hx]
+
+/-- **what `parse_reference` keeps**: when the (trimmed) name starts with `./`, `../`, `.\\` or `..\\`, every
+    backslash is read as `/`, the path is split at `/`; the first piece (`.` or `..`, no letter or digit) is
+    left out, the last piece is the name, the pieces between are `reference.components`, in order -/
+theorem rkc_parseReference_path (name : Str) (r : RecipeReference) (h : parseReference name = some r) :
+    ∃ first, splitOnChar '/' (name.map (fun c => if c = '\\' then '/' else c)) =
+        first :: (r.components ++ [r.name]) ∧ (first = ['.'] ∨ first = ['.', '.']) := by
+  unfold parseReference at h
+  split at h
+  · rename_i hc
+    simp only [Option.some.injEq] at h
+    subst h
+    simp only []
+    have key : ∃ first rest, name.map (fun c => if c = '\\' then '/' else c) = first ++ '/' :: rest ∧
+        (first = ['.'] ∨ first = ['.', '.']) := by
+      simp only [startsWith, Bool.or_eq_true] at hc
+      rcases hc with ((hc | hc) | hc) | hc <;>
+        (obtain ⟨t, rfl⟩ := List.isPrefixOf_iff_prefix.1 hc)
+      · exact ⟨['.'], t.map (fun c => if c = '\\' then '/' else c), by simp, Or.inl rfl⟩
+      · exact ⟨['.', '.'], t.map (fun c => if c = '\\' then '/' else c), by simp, Or.inr rfl⟩
+      · exact ⟨['.'], t.map (fun c => if c = '\\' then '/' else c), by simp, Or.inl rfl⟩
+      · exact ⟨['.', '.'], t.map (fun c => if c = '\\' then '/' else c), by simp, Or.inr rfl⟩
+    obtain ⟨first, rest, hp, hf⟩ := key
+    rw [hp]
+    have hsplit : splitOnChar '/' (first ++ '/' :: rest) = first :: splitOnChar '/' rest := by
+      rcases hf with rfl | rfl
+      · obtain ⟨p, ps, e1, e2⟩ := rkc_splitOnChar_other '/' '.' ('/' :: rest) (by decide)
+        rw [rkc_splitOnChar_sep] at e1
+        simp only [List.cons.injEq] at e1
+        show splitOnChar '/' ('.' :: '/' :: rest) = _
+        rw [e2, ← e1.1, ← e1.2]
+      · obtain ⟨p, ps, e1, e2⟩ := rkc_splitOnChar_other '/' '.' ('/' :: rest) (by decide)
+        rw [rkc_splitOnChar_sep] at e1
+        simp only [List.cons.injEq] at e1
+        obtain ⟨p', ps', e1', e2'⟩ := rkc_splitOnChar_other '/' '.' ('.' :: '/' :: rest) (by decide)
+        show splitOnChar '/' ('.' :: '.' :: '/' :: rest) = _
+        rw [e2', ] 
+        rw [e2] at e1'
+        simp only [List.cons.injEq] at e1'
+        rw [← e1'.1, ← e1'.2, ← e1.1, ← e1.2]
+    rw [hsplit]
+    refine ⟨first, ?_, hf⟩
+    simp only [List.drop_succ_cons, List.drop_zero]
+    have hne := rkc_splitOnChar_ne '/' rest
+    congr 1
+    rw [List.getLast?_eq_some_getLast hne]
+    simp only [Option.getD_some]
+    exact (List.dropLast_concat_getLast hne).symm
+  · cases h
 end Cook
